@@ -31,6 +31,7 @@ type Frame struct {
 	defers   []*ssa.Defer
 	checkFrame bool // emit frame obligations (writes only to fresh memory)
 	site     string // label for skolem naming
+	modLocs  []modLoc
 	visited  map[*ssa.Range]*Term // ghost visited set per map range at loop head
 	curKey   map[*ssa.Range]*Term
 }
@@ -607,7 +608,11 @@ func (f *Frame) instr(st *State, r *Term, in ssa.Instruction) {
 	case *ssa.BinOp:
 		f.vals[x] = f.binop(x, r)
 	case *ssa.ChangeType:
-		f.vals[x] = f.get(x.X)
+		v := f.get(x.X)
+		if t, ok := v.(*Term); ok && t.S != SAny && isIfaceT(f.subst(x.Type())) {
+			v = f.box(t, x.X.Type())
+		}
+		f.vals[x] = v
 	case *ssa.ChangeInterface:
 		f.vals[x] = f.get(x.X)
 	case *ssa.Convert:
@@ -628,15 +633,15 @@ func (f *Frame) instr(st *State, r *Term, in ssa.Instruction) {
 		ref := f.newRef(st, "mk")
 		et := f.subst(x.Type()).Underlying().(*types.Slice).Elem()
 		es := f.sortOf(et)
-		name := compE(es)
+		name := f.eName(et)
 		E := f.ctx.comp(st, name, ArrS(SInt, ArrS(SInt, es)))
 		st.heap[name] = f.ctx.name("E", Store(E, ref, f.zeroArray(ArrS(SInt, es), es, et)))
 		f.vals[x] = MkSlice(ref, IntLit(0), ln, cp)
 	case *ssa.MakeMap:
 		ref := f.newRef(st, "mkmap")
 		mt := f.subst(x.Type()).Underlying().(*types.Map)
-		ks, vs := f.sortOf(mt.Key()), f.sortOf(mt.Elem())
-		dn := compMD(ks, vs)
+		ks := f.sortOf(mt.Key())
+		dn := f.mdName(mt.Key(), mt.Elem())
 		D := f.ctx.comp(st, dn, ArrS(SInt, ArrS(ks, SBool)))
 		st.heap[dn] = f.ctx.name("MD", Store(D, ref, ConstArr(ArrS(ks, SBool), False)))
 		f.vals[x] = ref
@@ -654,15 +659,15 @@ func (f *Frame) instr(st *State, r *Term, in ssa.Instruction) {
 		m := f.term(x.Map)
 		f.check("safe", "nil-map-write:"+describe(x.Map), r, Neq(m, IntLit(0)), x.Pos())
 		mt := f.subst(x.Map.Type()).Underlying().(*types.Map)
-		f.frameCheckRef(r, m, "map-write:"+describe(x.Map), x.Pos())
+		f.frameCheckMap(r, mt, m, f.term(x.Key), "map-write:"+describe(x.Map), x.Pos())
 		f.mapStore(st, r, mt, m, f.term(x.Key), f.asTerm(f.get(x.Value)))
 	case *ssa.Range:
 		xt := f.subst(x.X.Type())
 		if mt, ok := xt.Underlying().(*types.Map); ok {
 			m := f.term(x.X)
-			ks, vs := f.sortOf(mt.Key()), f.sortOf(mt.Elem())
-			D := f.ctx.comp(st, compMD(ks, vs), ArrS(SInt, ArrS(ks, SBool)))
-			dom0 := f.ctx.name("dom0", Ite(Eq(m, IntLit(0)), ConstArr(ArrS(ks, SBool), False), Select(D, m)))
+			ks := f.sortOf(mt.Key())
+			D := f.ctx.comp(st, f.mdName(mt.Key(), mt.Elem()), ArrS(SInt, ArrS(ks, SBool)))
+			dom0 := f.ctx.define("dom0", Ite(Eq(m, IntLit(0)), ConstArr(ArrS(ks, SBool), False), Select(D, m)))
 			f.vals[x] = RangeIterVal{X: m, T: xt, Dom0: dom0, Instr: x}
 		} else {
 			panic(unsupported("range over " + xt.String()))
@@ -703,6 +708,14 @@ func (f *Frame) nameLoaded(st *State, v *Term, t types.Type) *Term {
 	return v
 }
 
+// assumeSlcShape: every slice value held in memory satisfies 0 <= off, 0 <= len <= cap.
+func (f *Frame) assumeSlcShape(v *Term) {
+	if v.Op == "mk!Slc" || v.size > 30 {
+		return
+	}
+	f.ctx.assumeOnce("shape:"+v.String(), And(Le(IntLit(0), SlcOff(v)), Le(IntLit(0), SlcLen(v)), Le(SlcLen(v), SlcCap(v)), Le(IntLit(0), SlcBase(v)), Implies(Eq(SlcBase(v), IntLit(0)), Eq(SlcCap(v), IntLit(0)))))
+}
+
 // assumeWf records model invariants of a loaded/opaque value: references are allocated.
 func (f *Frame) assumeWf(st *State, v *Term, t types.Type) {
 	t = f.subst(t)
@@ -718,7 +731,7 @@ func (f *Frame) assumeWf(st *State, v *Term, t types.Type) {
 			return
 		}
 		b := SlcBase(v)
-		f.ctx.assumeOnce("wf:"+v.String(), And(Le(IntLit(0), b), Lt(b, st.alloc), Le(IntLit(0), SlcOff(v)), Le(IntLit(0), SlcLen(v)), Le(SlcLen(v), SlcCap(v))))
+		f.ctx.assumeOnce("wf:"+v.String(), And(Le(IntLit(0), b), Lt(b, st.alloc), Le(IntLit(0), SlcOff(v)), Le(IntLit(0), SlcLen(v)), Le(SlcLen(v), SlcCap(v)), Implies(Eq(b, IntLit(0)), Eq(SlcCap(v), IntLit(0)))))
 	case *types.Struct:
 		if v.size > 40 {
 			return
@@ -845,7 +858,7 @@ func (f *Frame) convert(st *State, x *ssa.Convert) Val {
 	case fs == SInt && ts == SStr:
 		return f.ctx.uf("rune2str", SStr, v)
 	case fs == SSlc && ts == SStr:
-		return f.ctx.uf("bytes2str", SStr, v, f.ctx.comp(st, compE(SInt), ArrS(SInt, ArrS(SInt, SInt))))
+		return f.ctx.uf("bytes2str", SStr, v, f.ctx.comp(st, f.eName(types.Typ[types.Byte]), ArrS(SInt, ArrS(SInt, SInt))))
 	case fs == SStr && ts == SSlc:
 		ref := f.newRef(st, "str2bytes")
 		ln := f.ctx.uf("strlen", SInt, v)
@@ -854,9 +867,17 @@ func (f *Frame) convert(st *State, x *ssa.Convert) Val {
 	panic(unsupported(fmt.Sprintf("convert %s -> %s", from, to)))
 }
 
+func isIfaceT(t types.Type) bool {
+	if _, isTP := types.Unalias(t).(*types.TypeParam); isTP {
+		return false
+	}
+	_, ok := t.Underlying().(*types.Interface)
+	return ok
+}
+
 func (f *Frame) box(v *Term, t types.Type) *Term {
 	t = f.subst(t)
-	if _, isIface := t.Underlying().(*types.Interface); isIface {
+	if isIfaceT(t) {
 		return v
 	}
 	id := f.ctx.eng.sorts.TypeID(t)
@@ -874,7 +895,7 @@ func (f *Frame) box(v *Term, t types.Type) *Term {
 func (f *Frame) typeAssert(x *ssa.TypeAssert, r *Term) Val {
 	v := f.asTerm(f.get(x.X))
 	at := f.subst(x.AssertedType)
-	if _, isIface := at.Underlying().(*types.Interface); isIface {
+	if isIfaceT(at) {
 		ok := f.ctx.fresh("implements", SBool)
 		f.ctx.assume(Implies(ok, Neq(v, Atom("anynil", SAny))))
 		if x.CommaOk {
@@ -948,8 +969,8 @@ func (f *Frame) sliceOp(st *State, r *Term, x *ssa.Slice) Val {
 
 func (f *Frame) mapRead(st *State, mt *types.Map, m, k *Term) (val, found *Term) {
 	ks, vs := f.sortOf(mt.Key()), f.sortOf(mt.Elem())
-	D := f.ctx.comp(st, compMD(ks, vs), ArrS(SInt, ArrS(ks, SBool)))
-	V := f.ctx.comp(st, compMV(ks, vs), ArrS(SInt, ArrS(ks, vs)))
+	D := f.ctx.comp(st, f.mdName(mt.Key(), mt.Elem()), ArrS(SInt, ArrS(ks, SBool)))
+	V := f.ctx.comp(st, f.mvName(mt.Key(), mt.Elem()), ArrS(SInt, ArrS(ks, vs)))
 	found = And(Neq(m, IntLit(0)), Select(Select(D, m), k))
 	val = Ite(found, Select(Select(V, m), k), f.zero(mt.Elem()))
 	return
@@ -957,7 +978,7 @@ func (f *Frame) mapRead(st *State, mt *types.Map, m, k *Term) (val, found *Term)
 
 func (f *Frame) mapStore(st *State, r *Term, mt *types.Map, m, k, v *Term) {
 	ks, vs := f.sortOf(mt.Key()), f.sortOf(mt.Elem())
-	dn, vn := compMD(ks, vs), compMV(ks, vs)
+	dn, vn := f.mdName(mt.Key(), mt.Elem()), f.mvName(mt.Key(), mt.Elem())
 	D := f.ctx.comp(st, dn, ArrS(SInt, ArrS(ks, SBool)))
 	V := f.ctx.comp(st, vn, ArrS(SInt, ArrS(ks, vs)))
 	st.heap[dn] = f.ctx.name("MD", Store(D, m, Store(Select(D, m), k, True)))
